@@ -41,6 +41,7 @@ class Check:
         self.violations = []        # (what, witness, mech)
         self.nviol = 0
         self.known_seen = {}
+        self.viol_by_mech = {}
         self.inconclusive = []
         self.exhaustive = {}
         self.extra = {}
@@ -85,7 +86,10 @@ class Check:
                     ks["n"] += 1
                     return
         self.nviol += 1
-        if len(self.violations) < MAX_WITNESSES:
+        self.viol_by_mech[mech] = self.viol_by_mech.get(mech, 0) + 1
+        # keep witnesses of as many different mechanisms as possible
+        if self.viol_by_mech[mech] <= 3 and \
+                len(self.violations) < MAX_WITNESSES:
             self.violations.append((what, witness, mech))
 
     # ---- the end
@@ -145,6 +149,7 @@ class Check:
             "violation_witnesses": [
                 {"what": w, "mechanism": m, "replay": p}
                 for (w, _, m), p in zip(self.violations, replay_paths)],
+            "violations_by_mechanism": self.viol_by_mech,
             "status": status,
             "inconclusive_reasons": self.inconclusive,
         }
@@ -167,6 +172,7 @@ class Check:
             print("KNOWN-FINDING: property=%s %s: %s (seen %d times)" %
                   (self.prop, mech, ks["what"], ks["n"]))
         if self.nviol:
+            print("  violations by mechanism: %s" % self.viol_by_mech)
             for (what, _, mech), path in zip(self.violations, replay_paths):
                 print("  violation: %s [%s] -> %s" % (what, mech, path))
             print("VIOLATION property=%s replay=%s" %
